@@ -152,3 +152,33 @@ def run(ctx):
     from ctemplates import check_constant_spelling
     rep.extra["constant_spelling_cases"] = check_constant_spelling(ctx, db, rep, "D4-CONST-SPELLING")
 
+    if ctx.tier == "thorough":
+        d5(ctx, rep)
+
+
+def d5(ctx, rep):
+    """thorough tier: sentence 2 of the property decided outright.  tools/generate-emulation is built from the tree in the
+    scratch build directory (as the project's own build does) and its output is compared byte for byte with the checked-in
+    orc/orcemulateopcodes.c / .h.  This executes the generator, never an emulation function."""
+    import os, subprocess
+    bdir = ctx.builddir
+    p = subprocess.run(["ninja", "-C", bdir, "tools/generate-emulation"], stdout=subprocess.PIPE, stderr=subprocess.STDOUT, text=True)
+    gen = os.path.join(bdir, "tools", "generate-emulation")
+    if p.returncode != 0 or not os.path.exists(gen):
+        raise AnalysisBroken("could not build generate-emulation in scratch: " + p.stdout[-400:])
+    env = dict(os.environ, LD_LIBRARY_PATH=os.path.join(bdir, "orc"))
+    for opts, rel in (([], "orc/orcemulateopcodes.c"), (["--header"], "orc/orcemulateopcodes.h")):
+        out = os.path.join(ctx.scratch, "regen_" + os.path.basename(rel))
+        r = subprocess.run([gen] + opts + ["-o", out], env=env, stdout=subprocess.PIPE, stderr=subprocess.STDOUT, text=True)
+        if r.returncode != 0 or not os.path.exists(out):
+            raise AnalysisBroken("generate-emulation failed: " + r.stdout[-300:])
+        a = open(out).read().split("\n")
+        b = open(os.path.join(ctx.repo, rel)).read().split("\n")
+        diff = [(i + 1, x, y) for i, (x, y) in enumerate(zip(a, b)) if x != y]
+        if len(a) != len(b) and not diff:
+            diff = [(min(len(a), len(b)) + 1, "<%d lines>" % len(a), "<%d lines>" % len(b))]
+        rep.check(not diff, "D5-REGENERATE", rel, "identical-to-generator-output",
+                  "%s is byte for byte what generate-emulation %s writes (%d lines)" % (rel, " ".join(opts), len(b)),
+                  "%s differs from the generator's output, first at line %s: generated `%s`, checked in `%s`" %
+                  ((rel,) + (diff[0] if diff else (0, "", ""))), line=diff[0][0] if diff else None)
+
